@@ -23,6 +23,80 @@ Proof. reflexivity. Qed.
 Lemma sum_n_params ls : py_sum_Z (map (fun l => layer_n_parameters l) ls) = n_params_of ls.
 Proof. rewrite py_sum_Z_sumZ. reflexivity. Qed.
 
+
+(* ================================================================== gates and layers (quantum_gate.py, circuit_layer.py) *)
+(* every gate class's static n_parameters(): the class is the constructor *)
+Lemma link_IdentityGate_n_parameters : forall q, gen_IdentityGate_n_parameters = gate_n_parameters (GId q).
+Proof. reflexivity. Qed.
+Print Assumptions link_IdentityGate_n_parameters.
+Lemma link_RotationGate_n_parameters : forall q, gen_RotationGate_n_parameters = gate_n_parameters (GRot q).
+Proof. reflexivity. Qed.
+Print Assumptions link_RotationGate_n_parameters.
+Lemma link_ControlGate_n_parameters : forall q t, gen_ControlGate_n_parameters = gate_n_parameters (GCtrl q t).
+Proof. reflexivity. Qed.
+Print Assumptions link_ControlGate_n_parameters.
+Lemma link_ControlledRotationGate_n_parameters : forall q c, gen_ControlledRotationGate_n_parameters = gate_n_parameters (GCRot q c).
+Proof. reflexivity. Qed.
+Print Assumptions link_ControlledRotationGate_n_parameters.
+
+(* gate.n_parameters() on an EVQEGate (dispatch-by-constructor over the four translated methods) *)
+Lemma gate_n_parameters_dispatch g :
+  match g with GId _ => gen_IdentityGate_n_parameters | GRot _ => gen_RotationGate_n_parameters
+             | GCtrl _ _ => gen_ControlGate_n_parameters | GCRot _ _ => gen_ControlledRotationGate_n_parameters end
+  = gate_n_parameters g.
+Proof. destruct g; reflexivity. Qed.
+
+(* EVQECircuitLayer.is_valid — no hypothesis: the IndexError of self.gates[...] is part of the model *)
+Lemma link_Layer_is_valid : forall l, gen_Layer_is_valid l = layer_is_valid l.
+Proof.
+  intros l. unfold gen_Layer_is_valid, layer_is_valid. rewrite py_len_of_nat.
+  destruct (negb (Z.of_nat (length (l_gates l)) =? l_qubits l)); [reflexivity|]. unfold py_enumerate.
+  rewrite (layer_valid_loop (l_gates l)).
+  - change (Z.of_nat 0) with 0. destruct (gates_valid_from (l_gates l) 0 (l_gates l)) as [[|]|e]; reflexivity.
+  - intros idx g. unfold gate_valid_at. change (@PyPrelude.py_index gate) with (@Genome.py_index gate).
+    destruct (negb (idx =? gate_qubit g)); [reflexivity|].
+    destruct g as [q|q|q t|q c]; cbn [is_controlled is_control gate_control_qubit_index gate_controlled_qubit_index bind ctl_of_valid];
+      try reflexivity.
+    + destruct (Genome.py_index (l_gates l) t) as [[q'|q'|q' t'|q' c']|e]; cbn [bind is_controlled gate_control_qubit_index negb ctl_of_valid]; try reflexivity.
+      destruct (c' =? idx); reflexivity.
+    + destruct (Genome.py_index (l_gates l) c) as [[q'|q'|q' t'|q' c']|e]; cbn [bind is_control gate_controlled_qubit_index negb ctl_of_valid]; try reflexivity.
+      destruct (t' =? idx); reflexivity.
+Qed.
+Print Assumptions link_Layer_is_valid.
+
+(* EVQECircuitLayer.__post_init__: raises exactly when the model's constructor make_layer does, and stores the model's
+   parameter count and controlled-gate count — this is what justifies the spec's reading of the private attributes
+   _n_parameters / _n_controlled_gates *)
+Lemma link_Layer_post_init : forall l,
+  gen_Layer_post_init l
+  = do v <- layer_is_valid l;
+    if v then Ok (mkLayerCache (layer_n_parameters l) (layer_n_controlled l)) else Err LayerException.
+Proof.
+  intros l. unfold gen_Layer_post_init. rewrite link_Layer_is_valid. cbv zeta.
+  destruct (layer_is_valid l) as [[|]|e]; cbn [bind negb]; try reflexivity.
+  f_equal. f_equal.
+  - rewrite py_sum_Z_sumZ. unfold layer_n_parameters. apply (f_equal sumZ). apply map_ext. exact gate_n_parameters_dispatch.
+  - rewrite (sum_ones (filter _ (l_gates l))). reflexivity.
+Qed.
+Print Assumptions link_Layer_post_init.
+
+(* EVQECircuitLayer(n_qubits=, gates=) in the model (make_layer) is the translated __post_init__ on the record *)
+Lemma link_Layer_post_init_make_layer : forall n gs,
+  make_layer n gs = do _ <- gen_Layer_post_init (mkLayer n gs); Ok (mkLayer n gs).
+Proof.
+  intros n gs. rewrite link_Layer_post_init. unfold make_layer.
+  destruct (layer_is_valid (mkLayer n gs)) as [[|]|e]; reflexivity.
+Qed.
+Print Assumptions link_Layer_post_init_make_layer.
+
+(* the two properties return the private attributes *)
+Lemma link_Layer_n_parameters : forall l, gen_Layer_n_parameters l = layer_n_parameters l.
+Proof. reflexivity. Qed.
+Print Assumptions link_Layer_n_parameters.
+Lemma link_Layer_n_controlled_gates : forall l, gen_Layer_n_controlled_gates l = layer_n_controlled l.
+Proof. reflexivity. Qed.
+Print Assumptions link_Layer_n_controlled_gates.
+
 (* ------------------------------------------------------------------ is_valid *)
 Lemma layer_wf_is_valid l : layer_wf l = true -> layer_is_valid l = Ok true.
 Proof. unfold layer_wf. destruct (layer_is_valid l) as [[|]|]; simpl; congruence. Qed.
@@ -30,13 +104,13 @@ Proof. unfold layer_wf. destruct (layer_is_valid l) as [[|]|]; simpl; congruence
 (* the loop of is_valid over layer objects *)
 Lemma is_valid_loop n ls : forallb layer_wf ls = true ->
   py_for ls (fun l (_ : unit) =>
-      do v <- layer_is_valid l;
+      do v <- gen_Layer_is_valid l;
       if negb v || negb (Z.eqb (l_qubits l) n) then Ok (Ret false) else Ok (Next tt)) tt
   = Ok (if forallb (fun l => layer_wf l && Z.eqb (l_qubits l) n) ls then Next tt else Ret false).
 Proof.
   induction ls as [|l t IH]; intros W; [reflexivity|].
   cbn [forallb] in W. apply andb_true_iff in W as [Wl Wt].
-  cbn [py_for forallb]. rewrite (layer_wf_is_valid l Wl), Wl. cbn [bind negb orb andb].
+  cbn [py_for forallb]. rewrite link_Layer_is_valid, (layer_wf_is_valid l Wl), Wl. cbn [bind negb orb andb].
   destruct (Z.eqb (l_qubits l) n); cbn [negb]; [exact (IH Wt) | reflexivity].
 Qed.
 
